@@ -29,10 +29,11 @@ NA = len(ALPHA)
 SH0 = shard_int("SH0", 0)
 STAGE = shard_int("STAGE", 0)
 NOISE = shard_int("NOISE", 0)
+NADDR = shard_int("NADDR", 1)  # address groups tried one after the other by the TCP connect
 PSK = "QRTIErOb/fcE9Ukd/5qA3RGYMn0Y+p06U58SCtOXvPc="
 
 # documented time bounds (seconds) per operation, from the constants the statement cites
-BOUND = {"start": 30.0 + 60.0, "finish": 30.0 + 30.0, "request": 10.0, "disconnect": 5.0 + 10.0}
+BOUND = {"start": 30.0 + 60.0 * NADDR, "finish": 30.0 + 30.0, "request": 10.0, "disconnect": 5.0 + 10.0}
 
 FRAME_CAUSE = {E.D_GARBAGE: ProtocolAPIError, E.D_BADPAYLOAD: ProtocolAPIError, E.D_NOISEMARK: RequiresEncryptionAPIError}
 
@@ -79,7 +80,9 @@ class _FirstCause:
 
 def _run(events: list) -> bool:
     track.entered()
-    kw = {"noise_psk": PSK} if NOISE else None
+    kw = {"noise_psk": PSK} if NOISE else {}
+    if NADDR > 1:
+        kw["addresses"] = ["10.0.0.%d" % (i + 1) for i in range(NADDR)]
     s = Scenario(STAGE, world_kw=kw)
     try:
         fc = _FirstCause(s)
@@ -153,10 +156,13 @@ def h09_4(a0: int, a1: int, a2: int, a3: int) -> bool:
     return _run([a0, a1, a2, a3])
 
 
-def _enabled_first(stage: int, noise: int) -> list:
+def _enabled_first(stage: int, noise: int, naddr: int = 1) -> list:
     out = []
     for i, ev in enumerate(ALPHA):
-        s = Scenario(stage, world_kw={"noise_psk": PSK} if noise else None)
+        kw = {"noise_psk": PSK} if noise else {}
+        if naddr > 1:
+            kw["addresses"] = ["10.0.0.%d" % (k + 1) for k in range(naddr)]
+        s = Scenario(stage, world_kw=kw)
         try:
             if s.apply(ev):
                 out.append(i)
@@ -168,18 +174,19 @@ def _enabled_first(stage: int, noise: int) -> list:
 def shards(tier: str) -> list:
     out = []
     fn = "h09_3" if tier == "quick" else "h09_4"
-    combos = [(st, 0) for st in (E.ST_RESOLVING, E.ST_CONNECTING, E.ST_OPENED, E.ST_HELLO_SENT, E.ST_CONNECTED, E.ST_DISCONNECTING)]
-    combos += [(E.ST_HELLO_SENT, 1)]  # noise: finish parked on the handshake
-    for st, nz in combos:
-        for i in _enabled_first(st, nz):
-            out.append({"fn": fn, "env": {"STAGE": st, "SH0": i, "NOISE": nz}, "cond_timeout": 600 if tier == "quick" else 2400, "path_timeout": 60,
-                        "desc": f"stage {E.STAGE_NAMES[st]}{' (noise)' if nz else ''}, first event {E.NAMES[ALPHA[i]]}, then {2 if tier == 'quick' else 3} symbolic events; then time runs until every call ended"})
+    combos = [(st, 0, 1) for st in (E.ST_RESOLVING, E.ST_CONNECTING, E.ST_OPENED, E.ST_HELLO_SENT, E.ST_CONNECTED, E.ST_DISCONNECTING)]
+    combos += [(E.ST_HELLO_SENT, 1, 1)]  # noise: finish parked on the handshake
+    combos += [(E.ST_CONNECTING, 0, 2)]  # two address groups: the TCP connect may take 2 x 60 s
+    for st, nz, na in combos:
+        for i in _enabled_first(st, nz, na):
+            out.append({"fn": fn, "env": {"STAGE": st, "SH0": i, "NOISE": nz, "NADDR": na}, "cond_timeout": 600 if tier == "quick" else 2400, "path_timeout": 60,
+                        "desc": f"stage {E.STAGE_NAMES[st]}{' (noise)' if nz else ''}{' (2 address groups)' if na > 1 else ''}, first event {E.NAMES[ALPHA[i]]}, then {2 if tier == 'quick' else 3} symbolic events; then time runs until every call ended"})
     return out
 
 
 BOUNDS = {"quick": "6 stages (+ noise handshake stage) x 3 events from a 27-event alphabet (resolver ok/error/hang, connect ok/error/hang, device frames incl. garbage / noise marker / undecodable payload / wrong-order responses, EOF, reset, write failure, silence, caller cancellation, up to 2 concurrent requests), then virtual time runs until all calls have ended",
           "thorough": "same with 4 events"}
-OUTSIDE = ["more than one address group in the TCP connect (bound 30 + 60 s per group is checked for one group)", "sequences longer than the bound", "real socket timing"]
+OUTSIDE = ["more than two address groups in the TCP connect", "sequences longer than the bound", "real socket timing"]
 ASSUMPTIONS = ["SimLoop virtual clock: callbacks take zero time", "time bounds from the constants cited by the statement: resolve 30 + connect 60; handshake 30 + hello/login 30; request timeout 10; disconnect 5 + 10",
                "first-cause reference: garbage / undecodable payload => ProtocolAPIError, noise marker on plaintext => RequiresEncryptionAPIError, EOF => SocketClosedAPIError; other causes only require a connection-error subclass"]
 EXPLANATION = "C09: every spawned call ends within its documented bound, with a result or an APIConnectionError subclass, never cancelled unless the harness cancelled it; no deadlock; waiters see the class of the first fatal cause."
